@@ -90,7 +90,11 @@ fn len_of(d: &Datum) -> usize {
 
 fn ticking_unary(ch: &mut Chooser) -> Expr {
     // (lambda (e) (tick e BODY)): the trace shows which elements were visited, in which order, how often
-    let body = match ch.below(4) {
+    let body = match ch.below(6) {
+        // procedures that fail on some elements (car of a non-pair) or answer #f: an error ends the traversal with
+        // that error, a false answer does not end it
+        4 => app("car", vec![var("e")]),
+        5 => app("pair?", vec![app("list", vec![])]),
         0 => app("list", vec![var("e")]),
         1 => var("e"),
         2 => app("cons", vec![var("e"), Expr::Quote(Datum::List(vec![], None))]),
